@@ -660,8 +660,24 @@ def group_strip_rule(db, chk, cfg, rule="GROUP.strip-closed"):
         raise AnalysisBroken("enum EndType not found")
     pname = f.params[2]["name"] if len(f.params) >= 3 else None
     n = 0
+    par = {}
+    for x in walk(f.body):
+        for c0 in kids(x):
+            if isinstance(c0, dict):
+                par[id(c0)] = x
+    reached = {name: 0 for name in et[1]}
     for c in calls:
         arg = db.call_args(c)[1]
+        # the conditions under which this call is reached (a flag computed once may have been turned into two branches)
+        guards = []
+        node = c
+        while par.get(id(node)) is not None:
+            p = par[id(node)]
+            if p.get("kind") == "IfStmt":
+                cond, then, els = if_parts(p)
+                if node is then or node is els:
+                    guards.append((cond, node is then))
+            node = p
         for name in et[1]:
             v = et[1].index(name)
             env = {"end_type": v}
@@ -675,6 +691,9 @@ def group_strip_rule(db, chk, cfg, rule="GROUP.strip-closed"):
                             init = [z for z in kids(d) if isinstance(z, dict) and z.get("kind")]
                             if init:
                                 it.env[d["name"]] = it.ev(init[-1])
+                if not all(bool(it.ev(g)) == pol for g, pol in guards):
+                    continue
+                reached[name] += 1
                 got = bool(it.ev(arg))
             except Unsupported as e:
                 raise AnalysisBroken("cannot evaluate the is_closed_path argument of StripDuplicates in Group::Group: %s" % e)
@@ -684,6 +703,11 @@ def group_strip_rule(db, chk, cfg, rule="GROUP.strip-closed"):
             if got != want:
                 chk.violation(rule, f.qual, name, "for EndType::%s the group %s a closing vertex equal to the first one; it must be stripped exactly for "
                               "the closed end types Polygon and Joined" % (name, "strips" if got else "keeps"), where(c), cfg=cfg)
+    for name, k in reached.items():
+        if k == 0:
+            n += 1
+            chk.instance(rule, {"end_type": name, "closing_vertex_stripped": None, "cfg": cfg}, ok=False)
+            chk.violation(rule, f.qual, name + "|unreached", "for EndType::%s ClipperOffset::Group::Group does not strip duplicate vertices at all" % name, f.where, cfg=cfg)
     return n
 
 
